@@ -57,6 +57,7 @@ def expected_value(cid, metric, k):
 
 
 # a plan = (requests in issue order, {component: number of messages})
+START = fakes.T0 - timedelta(hours=1)
 PLANS = {
     # (the request for the unknown component 99 sits in the middle: requests behind it must be served all the same)
     "meter": ([("ns", 2, M.ACTIVE_POWER), ("ns", 2, M.FREQUENCY), ("ns", 99, M.ACTIVE_POWER), ("ns2", 2, M.ACTIVE_POWER), ("ns", 2, M.ACTIVE_POWER)],
@@ -68,6 +69,9 @@ PLANS = {
     # the same request repeated while an earlier request of another namespace exists for the same metric
     "dup-namespaces": ([("ns", 2, M.ACTIVE_POWER), ("ns2", 2, M.ACTIVE_POWER), ("ns2", 2, M.ACTIVE_POWER), ("ns3", 2, M.ACTIVE_POWER),
                         ("ns2", 2, M.ACTIVE_POWER)], {2: 3}),
+    # the same (namespace, component, metric) asked for live and with a start time: two different streams; the second is repeated
+    "start-time": ([("ns", 2, M.ACTIVE_POWER), ("ns", 2, M.ACTIVE_POWER, START), ("ns", 2, M.ACTIVE_POWER, START), ("ns", 2, M.ACTIVE_POWER)],
+                   {2: 3}),
     "meter-long": ([("ns", 2, M.ACTIVE_POWER), ("ns", 2, M.FREQUENCY), ("ns2", 2, M.ACTIVE_POWER), ("ns3", 2, M.REACTIVE_POWER)], {2: 5}),
 }
 
@@ -97,7 +101,7 @@ def make_scenario(plan_name):
             actor = DataSourcingActor(reqch.new_receiver(), reg)
             actor.start()
             loop.settle()
-            requests = [ComponentMetricRequest(ns, cid, metric, None) for ns, cid, metric in reqs_spec]
+            requests = [ComponentMetricRequest(sp[0], sp[1], sp[2], sp[3] if len(sp) > 3 else None) for sp in reqs_spec]
             streams = {}
             for r in requests:
                 name = r.get_channel_name()
@@ -322,9 +326,9 @@ def run(tier: str, seed: int, workers: int):
     from ..explore import pmap_acc
 
     if tier == "quick":
-        plans = [("meter", 1), ("meter-short", 1), ("two-components", 1), ("all-categories", 0), ("dup-namespaces", 1)]
+        plans = [("meter", 1), ("meter-short", 1), ("two-components", 1), ("all-categories", 0), ("dup-namespaces", 1), ("start-time", 1)]
     else:
-        plans = [("meter", 2), ("meter-short", 2), ("two-components", 2), ("all-categories", 1), ("meter-long", 1), ("dup-namespaces", 2)]
+        plans = [("meter", 2), ("meter-short", 2), ("two-components", 2), ("all-categories", 1), ("meter-long", 1), ("dup-namespaces", 2), ("start-time", 2)]
     determinism_selfcheck(make_scenario("meter-short"))
     acc = Acc()
     from ..core import Violation
@@ -342,7 +346,7 @@ def run(tier: str, seed: int, workers: int):
         acc.merge(explore(make_scenario(plan), bound, _mkcase(plan), workers=workers))
     meta = {
         "rule": "per plan (a list of subscription requests in issue order - two metrics and two namespaces of one component, an exact "
-        "duplicate, an unknown component; two components; one component per category - and a number of data messages per component): "
+        "duplicate, an unknown component; the same subscription with and without a start time; two components; one component per category - and a number of data messages per component): "
         "every interleaving of requests and messages injected at quiescence, plus injection between two loop iterations and "
         "asyncio.wait done-set orders as deviations up to the bound; non-trivial = a message is delivered before the last request and "
         "there are at least two streams; plus one run subscribing every metric the SDK supports for a meter, an inverter, a battery "
